@@ -352,7 +352,7 @@ func localOrigin(w *World, fi *FuncInfo, obj types.Object) (*types.Var, string) 
 		}
 	}
 	if len(assigns) == 1 && len(assigns[0].Lhs) == 1 && len(assigns[0].Rhs) == 1 {
-		if fv := fieldOf(info, assigns[0].Rhs[0]); fv != nil {
+		if fv := fieldOrDeref(info, assigns[0].Rhs[0]); fv != nil {
 			return fv, "copy"
 		}
 		// x := recv.helper(): the helper returns a local with an origin of its own
@@ -386,7 +386,7 @@ func localOrigin(w *World, fi *FuncInfo, obj types.Object) (*types.Var, string) 
 				if !isR || len(rs.Body.List) != 1 || rs.Body.List[0] != ast.Stmt(as) {
 					return true
 				}
-				fv := fieldOf(info, rs.X)
+				fv := fieldOrDeref(info, rs.X)
 				if fv == nil || rs.Key == nil || len(c.Args) != 2 {
 					return true
 				}
@@ -477,6 +477,39 @@ func closeEvents(w *World, loopsOf func(body *ast.BlockStmt) []*closeLoop) *Even
 		}
 		return out
 	}
+	baseNodeGen := ev.NodeGen
+	ev.NodeGen = func(pkg *packages.Package, n ast.Node) []string {
+		out := baseNodeGen(pkg, n)
+		info := pkg.TypesInfo
+		// drain(&x.f) where the private helper assigns nil through the pointer
+		for _, c := range callsIn(n, false) {
+			cal := callee(info, c)
+			if cal == nil || cal.Exported() {
+				continue
+			}
+			if o := cal.Origin(); o != nil {
+				cal = o
+			}
+			t := w.Decls[cal]
+			if t == nil {
+				continue
+			}
+			k := 0
+			for _, fl := range t.Decl.Type.Params.List {
+				for _, nm := range fl.Names {
+					if k < len(c.Args) {
+						if ue, isU := unparen(c.Args[k]).(*ast.UnaryExpr); isU && ue.Op == token.AND {
+							if fv := fieldOf(info, ue.X); fv != nil && assignsNilThrough(t.Pkg.TypesInfo, t, t.Pkg.TypesInfo.Defs[nm]) {
+								out = append(out, "nil:"+ownerField(w, fv))
+							}
+						}
+					}
+					k++
+				}
+			}
+		}
+		return out
+	}
 	ev.EdgeGen = func(pkg *packages.Package, b *cfg.Block, i int, cond ast.Expr) []string {
 		info := pkg.TypesInfo
 		var out []string
@@ -493,7 +526,11 @@ func closeEvents(w *World, loopsOf func(body *ast.BlockStmt) []*closeLoop) *Even
 			if be, ok := unparen(cond).(*ast.BinaryExpr); ok && (be.Op == token.EQL || be.Op == token.NEQ) {
 				for _, pair := range [][2]ast.Expr{{be.X, be.Y}, {be.Y, be.X}} {
 					if isNilIdent(info, pair[1]) {
-						if fv := fieldOf(info, pair[0]); fv != nil {
+						fv := fieldOf(info, pair[0])
+						if fv == nil {
+							fv = aliasOfField(pkg, objOf(info, pair[0])) // parent := s.parentScope; parent != nil
+						}
+						if fv != nil {
 							isNilEdge := (be.Op == token.EQL) == (i == 0)
 							if isNilEdge {
 								of := ownerField(w, fv)
@@ -701,9 +738,41 @@ func helperReturnOrigin(w *World, fi *FuncInfo, c *ast.CallExpr) (*types.Var, st
 	if cal == nil || cal.Exported() {
 		return nil, ""
 	}
+	if o := cal.Origin(); o != nil {
+		cal = o
+	}
 	t := w.Decls[cal]
 	if t == nil || t.Pkg != fi.Pkg {
 		return nil, ""
+	}
+	// drainSet(&x.f): inside the helper, *param stands for the field
+	{
+		tinfo := t.Pkg.TypesInfo
+		k := 0
+		saved := map[types.Object]*types.Var{}
+		for _, fl := range t.Decl.Type.Params.List {
+			for _, nm := range fl.Names {
+				if k < len(c.Args) {
+					if ue, isU := unparen(c.Args[k]).(*ast.UnaryExpr); isU && ue.Op == token.AND {
+						if f2 := fieldOf(info, ue.X); f2 != nil {
+							po := tinfo.Defs[nm]
+							saved[po] = derefField[po]
+							derefField[po] = f2
+						}
+					}
+				}
+				k++
+			}
+		}
+		defer func() {
+			for po, old := range saved {
+				if old == nil {
+					delete(derefField, po)
+				} else {
+					derefField[po] = old
+				}
+			}
+		}()
 	}
 	var fv *types.Var
 	how := ""
@@ -754,4 +823,64 @@ func exprOrigin(w *World, fi *FuncInfo, e ast.Expr) (*types.Var, string) {
 		return helperReturnOrigin(w, fi, c)
 	}
 	return nil, ""
+}
+
+// derefField: while a helper called with &x.f is analysed, its pointer parameter -> the field.
+var derefField = map[types.Object]*types.Var{}
+
+// fieldOrDeref: the field e denotes - directly, or as *p for a pointer parameter bound to &x.f.
+func fieldOrDeref(info *types.Info, e ast.Expr) *types.Var {
+	if fv := fieldOf(info, e); fv != nil {
+		return fv
+	}
+	if st, ok := unparen(e).(*ast.StarExpr); ok {
+		if o := objOf(info, st.X); o != nil {
+			return derefField[o]
+		}
+	}
+	return nil
+}
+
+// aliasOfField: o is a local that is assigned exactly once, from a field
+// selection (parent := s.parentScope): the field.
+var aliasCache = map[*packages.Package]map[types.Object]*types.Var{}
+
+func aliasOfField(pkg *packages.Package, o types.Object) *types.Var {
+	if o == nil || pkg == nil {
+		return nil
+	}
+	m, ok := aliasCache[pkg]
+	if !ok {
+		m = map[types.Object]*types.Var{}
+		count := map[types.Object]int{}
+		info := pkg.TypesInfo
+		for _, f := range pkg.Syntax {
+			ast.Inspect(f, func(n ast.Node) bool {
+				as, ok := n.(*ast.AssignStmt)
+				if !ok {
+					return true
+				}
+				for i, l := range as.Lhs {
+					lo := objOf(info, l)
+					if lo == nil {
+						continue
+					}
+					count[lo]++
+					if len(as.Lhs) == len(as.Rhs) {
+						if fv := fieldOf(info, as.Rhs[i]); fv != nil {
+							m[lo] = fv
+						}
+					}
+				}
+				return true
+			})
+		}
+		for lo := range m {
+			if count[lo] != 1 {
+				delete(m, lo)
+			}
+		}
+		aliasCache[pkg] = m
+	}
+	return m[o]
 }
